@@ -47,6 +47,8 @@ pub mod time {
     }
     impl Duration {
         #[verifier::external_body]
+        pub exec const ZERO: Duration ensures Self::ZERO@ == 0 { Duration { ns: 0 } }
+        #[verifier::external_body]
         pub fn as_millis(&self) -> (r: u128) ensures r == self@ / 1_000_000 { unimplemented!() }
         #[verifier::external_body]
         pub const fn from_millis(ms: u64) -> (r: Duration) ensures r@ == ms as int * 1_000_000 { unimplemented!() }
